@@ -138,6 +138,25 @@ def run(ctx, rep):
            "ok" if agree else "violated",
            "suffixes=%s compiler emits function %s, interpreter starts %s" % (sorted(suffixes), names, rnames), exe.span, fn=exe.path)
 
+    # ---- 1b. every import statement runs the module loader ----------------------------------------------------------
+    # `import m`, `import a from m` and `import type T from m` are all the *first import* of m when nothing else imported it: each
+    # Ok return of Import::compile must have emitted the module_entry instruction (a statement compiled to nothing never initialises m,
+    # or initialises it late, at a later import).
+    import opcodes
+    me = [c for f, nm, sp, c in opcodes.instruction_literals(F) if f is imp and nm == "module_entry"]
+    rep.floor("C11.module_entry emission sites in Import::compile", len(me), 2)
+    oks = rules.ok_return_blocks(imp)
+    bad = [b for b in oks if not rules.call_dominates(imp, me, b)] if me else oks
+    # the argument of module_entry is the key template string
+    keyed = 0
+    for c in me:
+        reach = imp.reachable(c.target) if c.target is not None else set()
+        if any(x.matches("alloc::fmt::format") for x in imp.calls() if rules.call_dominates(imp, [x], c.bb)):
+            keyed += 1
+    rep.ob("C11.import-runs-module", "every form of import (module, names, type-only) emits module_entry for its module on every Ok path",
+           "ok" if oks and not bad and keyed == len(me) else "violated", "Ok returns not preceded by a module_entry emission: %s" % bad, imp.span, fn=imp.path,
+           key="C11.import-runs-module|compile")
+
     # ---- 2. look before run ------------------------------------------------------
     p = need(F, "bytecode::interpreter::Program::process_jump_request")
     JD = "bytecode::instruction::JumpRequestDestination"
